@@ -190,6 +190,16 @@ def check_case(case):
                     V("C11/damage-not-a-number/%s" % rule, damage=full[rule])
             tot = {r: math.fsum(full[r]) for r in RULES}
 
+            # ONE kept Fatigue object: its own damage, the three Miner variants derived from it, its own damage again
+            kept = curve_series(curve).fatigue
+            own_before = [float(x) for x in np.asarray(kept.damage(lc), dtype=float)]
+            for rule in RULES:
+                getattr(kept, rule)()
+            own_after = [float(x) for x in np.asarray(kept.damage(lc), dtype=float)]
+            ev += 2
+            if own_before != own_after and not all(math.isnan(a) and math.isnan(b) or a == b for a, b in zip(own_before, own_after)):
+                V("C11/kept-fatigue-object/own-damage-changes-after-deriving-the-miner-variants", before=own_before, after=own_after)
+
             # ordered original <= Haibach <= elementary (member-wise and in total)
             for lo, hi in (("miner_original", "miner_haibach"), ("miner_haibach", "miner_elementary")):
                 if any(a > b * (1 + RT_LIN) for a, b in zip(full[lo], full[hi])) or tot[lo] > tot[hi] * (1 + RT_LIN):
